@@ -211,3 +211,25 @@ Definition py_slice {A} (l : list A) (lo hi : option Z) : list A :=
   let a := py_clamp n lo 0 in
   let b := py_clamp n hi n in
   firstn (Z.to_nat (b - a)) (skipn (Z.to_nat a) l).
+
+(* ------------------------------------------------------------------ *)
+(** Shape-independent automation for tie lemmas: case-split on every boolean test
+    and every option scrutinee that occurs in the goal, then close by computation /
+    linear arithmetic.  Used so that a harmless restructuring of the translated
+    source (swapped branches, early returns, De Morgan) does not break the tie. *)
+Ltac tie_split :=
+  repeat match goal with
+  | |- context [Z.ltb ?a ?b] => destruct (Z.ltb a b) eqn:?
+  | |- context [Z.leb ?a ?b] => destruct (Z.leb a b) eqn:?
+  | |- context [Z.gtb ?a ?b] => destruct (Z.gtb a b) eqn:?
+  | |- context [Z.geb ?a ?b] => destruct (Z.geb a b) eqn:?
+  | |- context [Z.eqb ?a ?b] => destruct (Z.eqb a b) eqn:?
+  | |- context [if ?c then _ else _] => is_var c; destruct c
+  | |- context [match ?x with Some _ => _ | None => _ end] => is_var x; destruct x
+  | |- context [if ?c then _ else _] =>
+      lazymatch c with
+      | negb _ => fail | andb _ _ => fail | orb _ _ => fail
+      | _ => destruct c eqn:?
+      end
+  end.
+Ltac tie_auto := cbn; tie_split; cbn; try reflexivity; try lia; try (repeat split; (reflexivity || lia)).
